@@ -32,7 +32,7 @@ NoCase == [id |-> 0, g |-> 0, w |-> <<>>, A |-> 1, M |-> 1, af |-> 0, cf |-> 1, 
            ib |-> 0, il |-> 1, ic |-> 1, cls |-> 0, xt |-> 0, bmax |-> 0, bchunk |-> 0, sched |-> 0]
 NoLast == [r |-> 0, v |-> -1, o |-> 0, mx |-> 0, lvl |-> 0, x |-> 0, eo |-> 0, tr |-> <<>>, endv |-> -1, endx |-> 0]
 Cnt0   == [ev |-> 0, cases |-> 0, den |-> 0, opq |-> 0, req |-> 0, look |-> 0, pos |-> 0, hook |-> 0, act |-> 0,
-           xcs |-> 0, ends |-> 0, raise |-> 0, fuel |-> 0, state |-> 0, sw |-> 0, tree |-> 0, rd |-> 0, cls2 |-> 0]
+           xcs |-> 0, ends |-> 0, raise |-> 0, fuel |-> 0, state |-> 0, sw |-> 0, tree |-> 0, rd |-> 0, cls2 |-> 0, ana |-> 0, anag |-> 0, anap |-> -1, anacert |-> 0, analoop |-> 0]
 
 CInit == /\ stk = <<>>
          /\ cs = NoCase
@@ -85,16 +85,23 @@ FrameSw(f) == IF Known(f.r) /\ f.af = 5 THEN Nodes[f.r].sw ELSE 0
 \* (iop: the operator of the implementation, e.g. rep_min_max< 0, 0, R > is implemented by, and behaves as, not_at< R >)
 IOpOf(r) == IF Known(r) THEN Nodes[r].iop ELSE "opaque"
 ExpA(f) == LET op == OpOf(f.r) sw == FrameSw(f) IN
-           IF op \in {"at", "not_at", "disable"} \/ IOpOf(f.r) \in {"at", "not_at"} \/ sw = 8 THEN 0 ELSE IF op = "enable" \/ sw = 7 THEN 1 ELSE f.A
-ExpAf(f) == IF OpOf(f.r) = "action" THEN Nodes[f.r].p[1] ELSE IF FrameSw(f) \in {3, 4, 5} THEN 1 ELSE f.af
+           \* the rule's own operator acts inside whatever its action class switched
+           IF op \in {"at", "not_at", "disable"} \/ IOpOf(f.r) \in {"at", "not_at"} THEN 0
+           ELSE IF op = "enable" THEN 1
+           ELSE IF sw = 8 THEN 0 ELSE IF sw = 7 THEN 1 ELSE f.A
+ExpAf(f) == IF OpOf(f.r) = "action" THEN Nodes[f.r].p[1] ELSE IF FrameSw(f) \in {3, 4, 5, 10} THEN 1 ELSE f.af
 ExpCf(f) == IF OpOf(f.r) = "control" THEN Nodes[f.r].p[1] ELSE IF FrameSw(f) = 6 THEN 2 ELSE f.cf
 ExpS(f) == IF f.sid > 0 THEN f.sid ELSE f.s
 \* change_action* re-enter Control< Rule >::match for the same rule with the new action family: that second
 \* invocation is not yet inside the rule's body, so the rule's own operator (at, disable, ...) does not apply to it
-Reentry(ev) == stk # <<>> /\ ev.r = Top.r /\ FrameSw(Top) \in {3, 4, 5} /\ Top.kids = 0
+Reentry(ev) == stk # <<>> /\ ev.r = Top.r /\ FrameSw(Top) \in {3, 4, 5, 10} /\ Top.kids = 0
 ExpChild(ev) == IF Reentry(ev) THEN <<Top.A, 1, Top.cf>> ELSE <<ExpA(Top), ExpAf(Top), ExpCf(Top)>>
 \* 1: the state rule, 2: an action-based state switch, 0: no state scope
-ScopeKind(f) == IF OpOf(f.r) = "state" THEN 1 ELSE IF FrameSw(f) \in {1, 2, 4, 5} THEN 2 ELSE 0
+\* (the action-based switch comes first: for change_action_and_state(s) the state<> rule itself is only reached in the
+\* re-entered invocation, which runs under the new action family and therefore has no switch of its own)
+ScopeKind(f) == IF FrameSw(f) \in {1, 2, 4, 5, 9, 10} THEN 2 ELSE IF OpOf(f.r) = "state" THEN 1 ELSE 0
+\* the state type can only be default-constructed (change_states always default-constructs)
+DefaultedOK(f) == FrameSw(f) \in {2, 5, 9, 10} \/ (OpOf(f.r) = "state" /\ Nodes[f.r].p = <<1>>)
 GuardedOpen == Cardinality({j \in 1..Len(stk) : FrameLim(stk[j]) = 1 /\ VisibleF(stk[j])})
 
 \* st: the operators of the open invocations, outermost first (the call site of the verdict)
@@ -262,7 +269,7 @@ OnState(ev, idx) ==
                 \o If(kind = 0, V("C13", idx, f.r, "state object handled by a rule that is not a state scope", ev.k, ev.sid))
                 \o If(ev.k = "sc" /\ (f.kids # 0 \/ f.sid # 0), V("C13", idx, f.r, "state not created exactly once at the start of the attached rule's attempt", f.kids, f.sid))
                 \o If(ev.k = "sc" /\ ~defaulted /\ (ev.os # f.s \/ ev.o # f.o), V("C13", idx, f.r, "state constructed with other than the outer states / the position of the attempt", <<ev.os, ev.o>>, <<f.s, f.o>>))
-                \o If(ev.k = "sc" /\ defaulted /\ FrameSw(f) \notin {2, 5}, V("C13", idx, f.r, "state default-constructed although it can be constructed from the input and outer states", 0, 0))
+                \o If(ev.k = "sc" /\ defaulted /\ ~DefaultedOK(f), V("C13", idx, f.r, "state default-constructed although it can be constructed from the input and outer states", 0, 0))
                 \o If(ev.k \in {"ss", "sd"} /\ ev.sid # f.sid, V("C13", idx, f.r, "state event for an object that does not belong to this scope", ev.sid, f.sid))
                 \o If(ev.k = "ss" /\ (f.sst # 1 \/ f.sss # 0), V("C13", idx, f.r, "success called twice or on a dead state", f.sst, f.sss))
                 \o If(ev.k = "ss" /\ ~(lastx.v = 1 /\ lastx.lvl = Len(stk) + 1 /\ ev.o = lastx.eo) /\ kind = 1,
@@ -418,12 +425,18 @@ OnEnd(ev, idx) ==
            \o If(~skip /\ agree /\ perr /\ d.k = "X" /\ d.who > 0 /\ d.n = 0 /\ ~(d.at <= ev.pb - cs.ib),
                  V("C05", idx, d.who, "error position before the start of the failed attempt", ev.pb, d.at))
            \o If(perr /\ (ev.pb - cs.ib < 0 \/ ev.pb - cs.ib > Len(cs.w)), V("C05", idx, 0, "error position outside the input", ev.pb, Len(cs.w)))
+           \* C11: a grammar certified by the analysis (zero problems) never loops without progress: neither the real run
+           \* (cut by the harness' fuel: events / nesting) nor the denotation (re-entry, or an iteration matching nothing)
+           \o If(cnt.anag = cs.g /\ cnt.anap = 0 /\ (fuel \/ d.k = "L"),
+                 V("C11", idx, cs.g, "analysis reported no problem for a grammar that loops without progress on this input", <<ev.x, d.k>>, cs.w))
            \o PosV(ev, idx, 0) \o BoundV(ev, idx, 0)
            \o If(ev.d >= 0 /\ ev.d # 0, V("C18", idx, 0, "depth counter not back to its initial value", ev.d, 0))
            \o If(ev.e >= 0 /\ ev.e # Len(cs.w), V("C18", idx, 0, "end of the input not restored", ev.e, Len(cs.w))))
       /\ stk' = <<>>
       /\ lastx' = [NoLast EXCEPT !.tr = IF ev.v = 1 THEN lastx.tr ELSE <<>>, !.endv = ev.v, !.endx = ev.x]
-      /\ cnt' = [cnt EXCEPT !.ev = @ + 1, !.ends = @ + 1, !.fuel = @ + (IF fuel THEN 1 ELSE 0)]
+      /\ cnt' = [cnt EXCEPT !.ev = @ + 1, !.ends = @ + 1, !.fuel = @ + (IF fuel THEN 1 ELSE 0),
+                            !.anacert = @ + (IF cnt.anag = cs.g /\ cnt.anap = 0 THEN 1 ELSE 0),
+                            !.analoop = @ + (IF cnt.anag = cs.g /\ (fuel \/ d.k = "L") THEN 1 ELSE 0)]
       /\ UNCHANGED cs
 
 (* tree: what parse_tree::parse built for the case that just ended (C12) *)
@@ -443,7 +456,9 @@ OnTree(ev, idx) ==
 
 OnOther(ev, idx) ==
    /\ verd' = VCap(IF ev.k = "crash" THEN Append(verd, V("C03", idx, 0, "harness process crashed (signal or terminate)", ev.why, 0)) ELSE verd)
-   /\ cnt' = IF ev.k = "rd" THEN Bump(Bump(cnt, "rd"), "ev") ELSE Bump(cnt, "ev")
+   /\ cnt' = IF ev.k = "rd" THEN Bump(Bump(cnt, "rd"), "ev")
+             ELSE IF ev.k = "ana" THEN [cnt EXCEPT !.ev = @ + 1, !.ana = @ + 1, !.anag = ev.g, !.anap = ev.p]   \* what analyze< g >() reported
+             ELSE Bump(cnt, "ev")
    /\ UNCHANGED <<stk, cs, lastx>>
 
 Step(ev, idx) ==
